@@ -174,7 +174,8 @@ def get_normalized_hostname(url, normalize_amp=True, infer_redirection=True):
         splitted = url
     else:
         try:
-            splitted = urlsplit(ensure_protocol(url.strip()))
+            url = CONTROL_CHARS_RE.sub("", url).strip()
+            splitted = urlsplit(ensure_protocol(url))
         except ValueError:
             return None
 
